@@ -187,7 +187,6 @@ type c27Slot struct {
 func c27() int {
 	tuneRuntime()
 	r := ev.Start("C27", ev.LevelExploration, 100*time.Second, 15*time.Minute)
-	debug.SetMaxStack(256 << 20)
 	st := &c27Stats{}
 	samples := ev.NewSamples(8)
 	nw := runtime.NumCPU()
